@@ -73,7 +73,11 @@ def execute(world, op, adopt=True, pre_hook=None):
     world.args = []
 
     def mk(spec):
-        o = env.mk(spec)
+        if isinstance(spec, list) and spec and spec[0] == "elem":
+            # the object currently stored at <attr>[i] of the receiver (aliasing an existing element)
+            o = getattr(world.objs[t], spec[1])[spec[2]]
+        else:
+            o = env.mk(spec)
         world.args.append(o)
         return o
 
@@ -192,6 +196,9 @@ def scalar_ops(n, K, a, obj, P):
             ops.append(_call(f"update_{n}", "update:UNCHANGED", ["UNCHANGED"], **f))
         if K.get("nested"):
             ops.append(_call(f"with_{n}", "with:kw", x=3, **f))
+            if P.get("value_plus_kw", True):
+                ops.append(_call(f"with_{n}", "with:value+kw", conf[-2] if len(conf) > 1 else conf[0], x=6, **f))
+                ops.append(_call(f"update_{n}", "update:value+kw", conf[-2] if len(conf) > 1 else conf[0], x=6, **f))
             ops.append(_call(f"update_{n}", "update:kw", x=4, **f))
             ops.append(_call(f"update_{n}", "update:kw2", x=4, ys=["list", [6]], **f))
             ops.append(_call(f"transform_{n}", "transform:attrfn", x=FN("inc"), **f))
@@ -239,9 +246,20 @@ def element_ops(n, K, a, obj, P):
             for i in idxs:
                 ops.append(_call(f"with_{it}", "with_item:index", items[0], _index=i, **f))
                 ops.append(_call(f"with_{it}", "with_item:insert", items[-1], _index=i, _insert=True, **f))
+            for x in bad_items[:1]:
+                ops.append(_call(f"with_{it}", "with_item:index:bad", x, _index=0, **f))
+                ops.append(_call(f"with_{it}", "with_item:insert:bad", x, _index=0, _insert=True, **f))
+                ops.append(_call(f"update_{it}", "update_item:index:bad", 0, x, _by_index=True, **f))
             if nested:
                 kwn = {"x": 3} if nested == "Leaf" else {"key": "k", "n": 3}
                 ops.append(_call(f"with_{it}", "with_item:kw", **kwn, **f))
+                if P.get("value_plus_kw", True):
+                    vk = {"x": 6} if nested == "Leaf" else {"n": 6}
+                    ops.append(_call(f"with_{it}", "with_item:value+kw", items[1], **vk, **f))
+                    if ln:
+                        ops.append(_call(f"update_{it}", "update_item:value+kw", 0, items[1], _by_index=True, **vk, **f))
+                        ops.append(_call(f"with_{it}", "with_item:alias_existing", ["elem", n, 0], **f))
+                        ops.append(_call(f"with_{it}", "with_item:alias_existing+kw", ["elem", n, 0], **vk, **f))
                 if ln:
                     up = {"x": 4} if nested == "Leaf" else {"n": 4}
                     ops.append(_call(f"update_{it}", "update_item:kw", 0, **up, **f))
@@ -348,6 +366,10 @@ def toplevel_ops(rec, obj, P):
                 if P.get("raising"):
                     ops.append(_call("transform", "transform:pair_second_raise", **{n1: FN("inc"), n2: FN("raise")}, **f))
         ops.append(_call("reset", "reset", **f))
+        if P.get("value_plus_kw", True):
+            n0, K0, _ = tab[0]
+            ops.append(_call("update", "update:newvalue+kw", ["inst", {}] if not rec.get("opts", {}).get("key") else ["inst", {rec["opts"]["key"]: next(K for n, K, a in tab if n == rec["opts"]["key"])["conf"][-1]}],
+                             **{n0: K0["conf"][-1]}, **f))
         if P.get("invalid", True):
             ops.append(_call("update", "update:unknown_kw", nope=1, **f))
     if P.get("iffalse", True):
